@@ -101,12 +101,11 @@ Definition show_files (w : world) : list str := flat_map show_file (firstn 5 (sk
 Definition show_tbl (look : nat -> entry) : str :=
   flat_map (fun n => match look n with Some _ => [digit n] | None => [] end) fds10.
 Definition show_flags (f : flags) : list str :=
-  [enc_bool (k_bothclobber f); enc_bool (k_compound_fail f); enc_bool (k_exec_nested f); enc_bool (k_std_dup f);
-   enc_bool (k_std_closed f); enc_bool (k_selfdup f)].
+  [enc_bool (k_diag_unusable f); enc_bool (k_exec_nested f); enc_bool (k_std_closed f)].
 
 (** args: nc, stdin-content, 3 x (exists, content), nmsgs, msgs (style kind arg text)*, ncmds, cmds.
     result: "M" model files (stdout stderr a b c: exists, content) model's final open set,
-            "S" the same for the spec, "K" the five class flags. *)
+            "S" the same for the spec, "K" the three open-class flags. *)
 Definition entry_c10_run (a : list str) : list str :=
   match a with
   | nc :: inp :: r0 =>
